@@ -11,6 +11,7 @@ CONSTANTS
 INVARIANT TypeOK
 INVARIANT LookupOK
 INVARIANT ProjOK
+INVARIANT RootOK
 INVARIANT HookOK
 INVARIANT NodesOK
 PROPERTY OutcomeOK
